@@ -1382,3 +1382,21 @@ Proof.
     + destruct He as ([[p b] a] & <- & _). exact I.
 Qed.
 End Shared.
+
+(* ---------------------------------------------------------------- move assignment between two configured resources *)
+Lemma set_up_id : forall s, set_up s (up s) = s.
+Proof. intros []. reflexivity. Qed.
+
+(* a = std::move(b) exchanges the two resources completely, allocators included: what b holds afterwards is
+   exactly what a held, and it is released to the page allocator / upstream it was obtained from *)
+Theorem mr_move_assign_exchanges : forall a b : rsrc,
+  move_assign a b = (b, a) /\
+  release_to (snd (move_assign a b)) = release_to a /\ release_to (fst (move_assign a b)) = release_to b.
+Proof.
+  intros [sa pa] [sb pb].
+  assert (E : move_assign (sa, pa) (sb, pb) = ((sb, pb), (sa, pa))).
+  { unfold move_assign. change move_swaps_contents with true.
+    change (move_swaps_upstream =? 1) with true. change (move_swaps_page_allocator =? 1) with true.
+    cbn [fst snd]. rewrite !set_up_id. reflexivity. }
+  rewrite E. auto.
+Qed.
